@@ -216,7 +216,7 @@ void buildFaults(bool thorough) {
               off += len;
             }
           }
-          if (f != 0 && f != 3) // checksum word of the s3 files
+          if (f != 0 && f != 3 && b.find("chksum0") != std::string::npos && b.find("chksum0") < (size_t)he) // checksum word of the s3 files that carry one
             for (int vk : {0, 3, 6}) gFaults.push_back({m, f, FIELD, (long)b.size() - 4, vk, dl});
           if (f == 0)
             for (long off : {0L, 4L, 8L})
